@@ -751,7 +751,7 @@ func ruleBB5(ctx *Ctx, r *Report) {
 		res, _ := ev.evalRoot(fn)
 		m := map[string]*Term{}
 		leafTerms("", res, m)
-		recv := fn.Params[0].Name()
+		recv := paramName(fn, 0)
 		kinds := map[string]bool{}
 		for _, t := range m {
 			k := "computed"
@@ -880,8 +880,8 @@ func ruleBB7(ctx *Ctx, r *Report) {
 		m := map[string]*Term{}
 		leafTerms("", obj, m)
 		axes := []string{"X", "Y", "Z"}[:c.dim]
-		bb := "call:" + fn.Params[0].Name() + ".BoundingBox()"
-		step := fn.Params[2].Name()
+		bb := "call:" + paramName(fn, 0) + ".BoundingBox()"
+		step := paramName(fn, 2)
 		// vertices of the operand box
 		var verts [][]*Term
 		for mask := 0; mask < 1<<uint(c.dim); mask++ {
